@@ -6,7 +6,7 @@ from ..lib import call
 from .c05 import deviation_ok
 
 PROP = "C14"
-PLAN = {"quick": (640, 500), "thorough": (10000, 3600)}
+PLAN = {"quick": (640, 500), "thorough": (3000, 3600)}
 LARGE = (0.01, 19)  # (share, largest size) of the large class of gen.kv: 17+ control points, degree up to 8
 STEP_BUDGET = 20_000_000  # loop line events per outermost call: ten times the default, for the large class
 RULE = ("case = (minimal polynomial curve certified by the reference model, a history of 1-4 knot insertions / degree "
